@@ -60,9 +60,12 @@ package htmldoc
 
 // ---- C19: elements already emitted must not share a backing array with accumulators that keep growing ----
 //@ func (*Reader) traverseNodeFiltered
-//@   property C19, C15
+//@   property C19, C15, C03
 //@   flags noalias, nosafety
 //@   fresh listItems
+// (C03/C19) the filtered walk collects into the caller's slice only: the reader's own (unfiltered) element list is not
+// touched, so an extraction in one mode cannot change what another extraction of the same reader returns
+//@   ensures readers_own_elements_untouched: same(r.elements, old(r.elements))
 // C15: a list element restores the kind (ordered/unordered) and the nesting level of the enclosing list when it closes,
 // so a nested list cannot change how the items of its parent are rendered
 //@   atreturn#6 enclosing_list_kind_and_level_restored: ctx.listOrdered == prevOrdered && ctx.listLevel == prevLevel
@@ -186,3 +189,12 @@ package htmldoc
 //@     step other_children_add_nothing: !isnil(prev(c)) && !(prev(c).Type == html.ElementNode && (prev(c).Data == "td" || prev(c).Data == "th")) ==> len(row) == prev(len(row))
 //@   loop 1:
 //@     invariant cell.Text == strings.TrimSpace(getTextContent(c))
+
+// ---- C19: a <div>/<main> counts as THE page wrapper only when it is the only structural child of <body>: any other
+// element next to it (a heading, a paragraph, an article ...) means there is no wrapper, so headers and footers inside
+// such a div are article-level content and are kept ----
+//@ func detectTopLevelWrapper results (res)
+//@   property C19
+//@   flags nosafety
+//@   loop 0:
+//@     step the_scan_never_goes_past_another_element: isnil(prev(c)) || !(prev(c).Type == html.ElementNode && prev(c).Data != "div" && prev(c).Data != "main" && prev(c).Data != "script" && prev(c).Data != "style" && prev(c).Data != "noscript" && prev(c).Data != "template")
